@@ -1,4 +1,4 @@
-import Rp2.Model.Pipeline
+import Rp2.Model.Report
 open Rp2
 
 structure Case where
@@ -18,32 +18,21 @@ def showRat (r : Rat) : String := s!"{r.num}/{r.den}"
 def showOptNat : Option Nat → String | none => "-" | some n => toString n
 def typOf (s : String) : TxType := (TxType.ofString? s).getD .buy
 
-def viewFilter {α} (day : α → Int) (fromD toD : Option Int) (l : List α) : List α :=
-  (cutAt day toD l).filter (fun x => match fromD with | none => true | some f => decide (f ≤ day x))
-
 def runCase (c : Case) : List String :=
-  match computeFractions c.sched.reverse c.ins.reverse c.outs.reverse c.intras.reverse with
-  | .error e => [s!"ERR {repr e}"]
-  | .ok fs =>
-    match balances c.allowNeg c.toDay c.ins.reverse c.outs.reverse c.intras.reverse with
-    | .error a => [s!"ERR overdrawn {a}"]
-    | .ok bs =>
-      let cut := cutAt (fun f : Fraction => f.ev.ts.day) c.toDay fs
-      let numbered := numberFractions cut
-      let shown := numbered.filter (fun n => match c.fromDay with | none => true | some f => decide (f ≤ n.f.ev.ts.day))
-      let fl := shown.map fun n =>
+  match compute "B1" (fun i => toString i) c.period c.allowNeg c.fromDay c.toDay c.sched.reverse c.ins.reverse c.outs.reverse c.intras.reverse with
+  | .error e => [s!"ERR {e}"]
+  | .ok cd =>
+      let fl := (cd.fracs.zip cd.fracRun).map fun (n, run) =>
         let f := n.f
-        s!"F {f.ev.row} {match f.lot with | none => "-" | some l => toString l.row} {f.amt} {showRat f.proceeds} {showRat f.cost} {showRat f.gain} {if f.isLong c.period then 1 else 0} {n.evK} {n.evN} {showOptNat n.lotK} {showOptNat n.lotN} {f.ev.typ.name}"
-      let fromYear : Option Int := c.fromDay.map (fun d => (civilFromDays d).1)
-      let ys := (yearly c.period cut).filter (fun (k, _) => match fromYear with | none => true | some y => decide (y ≤ k.year))
-      let yl := ys.map fun (k, s) => s!"Y {k.year} {k.typ.name} {if k.long then 1 else 0} {showRat s.amt} {showRat s.fiat} {showRat s.cost} {showRat s.gain}"
-      let bl := bs.map fun b => s!"B {b.acct} {b.acq} {b.sent} {b.recv} {b.fin}"
-      let vi := viewFilter (fun t : InTx => t.ts.day) c.fromDay c.toDay (sortByTs (·.ts.us) c.ins.reverse)
-      let vo := viewFilter (fun t : OutTx => t.ts.day) c.fromDay c.toDay (sortByTs (·.ts.us) c.outs.reverse)
-      let vx := viewFilter (fun t : IntraTx => t.ts.day) c.fromDay c.toDay (sortByTs (·.ts.us) c.intras.reverse)
-      let vl := [" ".intercalate ("V in" :: vi.map (fun t => toString t.row)), " ".intercalate ("V out" :: vo.map (fun t => toString t.row)),
-                 " ".intercalate ("V intra" :: vx.map (fun t => toString t.row))]
-      fl ++ yl ++ bl ++ vl ++ [s!"P {showRat (pricePerUnit c.toDay c.ins.reverse)}"]
+        s!"F {f.ev.row} {match f.lot with | none => "-" | some l => toString l.row} {f.amt} {showRat f.proceeds} {showRat f.cost} {showRat f.gain} {if f.isLong c.period then 1 else 0} {n.evK} {n.evN} {showOptNat n.lotK} {showOptNat n.lotN} {f.ev.typ.name} {showRat run}"
+      let yl := cd.yearly.map fun (k, s) => s!"Y {k.year} {k.typ.name} {if k.long then 1 else 0} {showRat s.amt} {showRat s.fiat} {showRat s.cost} {showRat s.gain}"
+      let bl := cd.bals.map fun b => s!"B {b.acct} {b.acq} {b.sent} {b.recv} {b.fin}"
+      let vl := [" ".intercalate ("V in" :: cd.ins.map (fun t => toString t.row)), " ".intercalate ("V out" :: cd.outs.map (fun t => toString t.row)),
+                 " ".intercalate ("V intra" :: cd.intras.map (fun t => toString t.row))]
+      let sl := cd.ins.map fun t => s!"S {t.row} {showRat ((lookupI t.row cd.sold).getD 0)} {showRat ((lookupI t.row cd.inRun).getD 0)}"
+      let ol := cd.outs.map fun t => let r := (lookupI t.row cd.outRun).getD (0, 0); s!"RO {t.row} {showRat r.1} {showRat r.2}"
+      let xl := cd.intras.map fun t => s!"RX {t.row} {showRat ((lookupI t.row cd.intraRun).getD 0)}"
+      fl ++ yl ++ bl ++ vl ++ sl ++ ol ++ xl ++ [s!"P {showRat cd.price}"]
 
 partial def loop (h : IO.FS.Stream) (c : Case) : IO Unit := do
   let line ← h.getLine
